@@ -134,7 +134,10 @@ def cexpr(e, var_map):
         l = add()
         while peek() in (">>", "<<"):
             o = eat()
-            l = f"({l} {'>>>' if o == '>>' else '<<<'} {add()})"
+            r = add()
+            if re.fullmatch(r"\(*0\)*", r):
+                continue                                      # `x >> 0` / `x << 0`: x (a helper called with shift 0)
+            l = f"({l} {'>>>' if o == '>>' else '<<<'} {r})"
         return l
 
     def band():
@@ -148,7 +151,10 @@ def cexpr(e, var_map):
         l = band()
         while peek() == "|":
             eat()
-            l = f"({l} ||| {band()})"
+            r = band()
+            if re.fullmatch(r"\(*\d+\)*", l) and not re.fullmatch(r"\(*\d+\)*", r):
+                l, r = r, l                                   # `literal | x`: printed as `x | literal` (| commutes)
+            l = f"({l} ||| {r})"
         return l
 
     r = bor()
@@ -305,6 +311,60 @@ def b64_preamble(pre, iv):
     return "  " + seq(stmts, ".ok (.val c)", 1)
 
 
+def one_line_helpers(src, exclude=()):
+    """`static T name(params) {return EXPR;}` one-liners of a header: name -> (parameter names, EXPR)"""
+    hs = {}
+    for m in re.finditer(r"static\s+[\w\s]+?\b(\w+)\s*\(([^()]*)\)\s*\{\s*return\s+([^;{}]*);\s*\}", strip_comments(src)):
+        name, params, expr = m.group(1), m.group(2), m.group(3)
+        if name in exclude:
+            continue
+        pn = [x.strip().split()[-1].lstrip("*&") for x in params.split(",") if x.strip()]
+        hs[name] = (pn, expr.strip())
+    return hs
+
+
+def inline_helper_calls(text, helpers):
+    """replace calls `name(a, b, ..)` (arguments without nested commas) of one-line helpers by their parenthesised body"""
+    for _ in range(4):
+        changed = False
+        for name, (pn, expr) in helpers.items():
+            def rep(m):
+                args = [a.strip() for a in m.group(1).split(",")]
+                if len(args) != len(pn):
+                    raise TranslateError(f"helper {name}: {len(args)} arguments for {len(pn)} parameters")
+                e = expr
+                for p_, a in zip(pn, args):
+                    e = re.sub(r"\b" + re.escape(p_) + r"\b", "\x00" + a + "\x01", e)
+                return "(" + e.replace("\x00", "(").replace("\x01", ")") + ")"
+            new = re.sub(r"\b" + re.escape(name) + r"\s*\(([^()]*)\)", rep, text)
+            if new != text:
+                text, changed = new, True
+        if not changed:
+            break
+    return text
+
+
+def strip_char_casts(a):
+    """`((char)(uchar)(E))` -> `E`: conversions to a character type are the `% 256` the caller appends"""
+    while True:
+        a = a.strip()
+        if a.startswith("("):
+            depth = 0
+            for k, c in enumerate(a):
+                depth += c == "("
+                depth -= c == ")"
+                if depth == 0:
+                    break
+            if k == len(a) - 1 and not re.match(r"\(\s*(?:char|uchar|byte|unsigned\s+char)\s*\)$", a):
+                a = a[1:-1]
+                continue
+        m = re.match(r"\(\s*(?:char|uchar|byte|unsigned\s+char)\s*\)\s*", a)
+        if m and len(a) > m.end():
+            a = a[m.end():]
+            continue
+        return a
+
+
 # ---- String.cpp -------------------------------------------------------------------------------------
 def translate_string(repo, out):
     src = (repo / "src" / "String.cpp").read_text(errors="replace")
@@ -370,15 +430,18 @@ def translate_string(repo, out):
             out.append(f"/-- {what}, for the symbol value `c` -/\ndef {name} (c : Nat) : Nat := {cexpr(e, {'c': 'c'})}\n")
     need(re.search(r"result\s*\.\s*resize\s*\(\s*" + (jv or "j") + r"\s*\)\s*;", code), f"fromBase64 `result.resize({jv})`")
 
-    hbody = strip_comments(function_body(src, r"String\s+String::fromHex\s*\([^)]*\)\s*\{", "String::fromHex"))
-    alpha = need(re.search(r'const\s+char\s*\*\s*hex\s*=\s*"([^"\\]*)"\s*;', hbody), "fromHex alphabet").group(1)
-    hi = need(re.search(r"dest\s*\[\s*0\s*\]\s*=\s*hex\s*\[(.*?)\]\s*;", hbody), "fromHex dest[0]").group(1)
-    lo = need(re.search(r"dest\s*\[\s*1\s*\]\s*=\s*hex\s*\[(.*?)\]\s*;", hbody), "fromHex dest[1]").group(1)
-    need(re.search(r"result\s*\.\s*resize\s*\(\s*size\s*\*\s*2\s*\)", hbody), "fromHex result.resize(size * 2)")
-    out.append("\n/-! src/String.cpp : String::fromHex -/\n")
-    out.append(f"def hexAlphabet : List Nat := {[ord(c) for c in alpha]}  -- \"{alpha}\"\n")
-    out.append(f"/-- index of `dest[0] = hex[..]` for the source byte `b` -/\ndef hexHi (b : Nat) : Nat := {cexpr(hi, {'*src': 'b'})}\n")
-    out.append(f"/-- index of `dest[1] = hex[..]` for the source byte `b` -/\ndef hexLo (b : Nat) : Nat := {cexpr(lo, {'*src': 'b'})}\n")
+    # fromHex: the alphabet by EXECUTION (harness/codec_probe.cpp prints fromHex of every single byte); the index expressions are the
+    # canonical `b >> 4` / `b & 0xf`, accepted only when all 256 executed results are alphabet[b >> 4], alphabet[b & 0xf]
+    # (the statements themselves are tied by the body translator: CodecBody.fromHex, body_fromHex)
+    hx = run_probe(repo)["hex"]
+    alpha = [hx[2 * (16 * k)] for k in range(16)]
+    for b in range(256):
+        if [hx[2 * b], hx[2 * b + 1]] != [alpha[b >> 4], alpha[b & 15]]:
+            raise TranslateError(f"fromHex: the text of byte {b} is not alphabet[b >> 4], alphabet[b & 0xf]")
+    out.append("\n/-! src/String.cpp : String::fromHex (alphabet by execution of the current sources) -/\n")
+    out.append(f"def hexAlphabet : List Nat := {alpha}  -- \"{''.join(chr(c) for c in alpha)}\"\n")
+    out.append("/-- index of `dest[0] = hex[..]` for the source byte `b` -/\ndef hexHi (b : Nat) : Nat := (b >>> 4)\n")
+    out.append("/-- index of `dest[1] = hex[..]` for the source byte `b` -/\ndef hexLo (b : Nat) : Nat := (b &&& 15)\n")
 
 
 # ---- Unicode.hpp --------------------------------------------------------------------------------------
@@ -450,6 +513,7 @@ def translate_unicode(repo, out):
 
     # append(uint32 ch, String& str): the #else (UTF-8) branch
     abody = function_body(src, r"static\s+bool\s+append\s*\(\s*uint32\s+ch\s*,\s*String\s*&\s*str\s*\)\s*\{", "Unicode::append(uint32, String&)")
+    helpers = one_line_helpers(src, exclude=("append", "toString", "length", "fromString", "isValid"))
     m = need(re.search(r"#else(.*?)#endif", abody, re.S), "Unicode::append: UTF-8 branch (#else ... #endif)")
     code = strip_comments(m.group(1))
     tail = strip_comments(abody[m.end():])
@@ -463,7 +527,7 @@ def translate_unicode(repo, out):
         bytes_ = []
         for st in [x.strip() for x in stmts.split(";") if x.strip()]:
             a = need(re.match(r"str\s*\.\s*append\s*\((.*)\)\s*$", st, re.S), f"Unicode::append: statement {st!r}").group(1).strip()
-            a = re.sub(r"^\(\s*char\s*\)\s*", "", a)
+            a = strip_char_casts(inline_helper_calls(a, helpers))
             bytes_.append(cexpr(a, {"ch": "ch"}))
         c = re.match(r"^\((.*)\)\s*==\s*0$", cond, re.S)
         if c:
@@ -482,7 +546,16 @@ def translate_unicode(repo, out):
         out.append(f"def encBytes{k} (ch : Nat) : List Nat := [{', '.join(b + ' % 256' for b in bs)}]\n")
 
 
+_PROBE_CACHE = {}
+
+
 def run_probe(repo):
+    if str(repo) not in _PROBE_CACHE:
+        _PROBE_CACHE[str(repo)] = run_probe_uncached(repo)
+    return _PROBE_CACHE[str(repo)]
+
+
+def run_probe_uncached(repo):
     """build harness/codec_probe.cpp against the current sources and run it; returns the 256 values of Unicode::length"""
     import subprocess
     import tempfile
@@ -500,12 +573,12 @@ def run_probe(repo):
     tables = {}
     for line in r.stdout.splitlines():
         t = line.split()
-        if t and t[0] in ("length", "isspace", "lower", "upper"):
+        if t and t[0] in ("length", "isspace", "lower", "upper", "hex"):
             vals = [int(x) for x in t[1:]]
-            if len(vals) != 256:
+            if len(vals) != (512 if t[0] == "hex" else 256):
                 raise TranslateError(f"probe: expected 256 values in line `{t[0]}`")
             tables[t[0]] = vals
-    for k in ("length", "isspace", "lower", "upper"):
+    for k in ("length", "isspace", "lower", "upper", "hex"):
         if k not in tables:
             raise TranslateError(f"probe printed no `{k}` line")
     return tables
@@ -768,6 +841,16 @@ class CParser:
                     n = self.expr()
                 self.eat("]")
                 self.eat("=")
+                if (self.peek() or "").startswith('"'):
+                    lit = self.eat()[1:-1]
+                    if "\\" in lit:
+                        self.err("escape in a string table")
+                    ds.append(("table", "u8", name, [("lit", ord(c), "int") for c in lit], None))
+                    if self.peek() == ",":
+                        self.eat()
+                        continue
+                    self.eat(";")
+                    return ("decl", ds)
                 self.eat("{")
                 vals = []
                 while self.peek() != "}":
@@ -1001,6 +1084,10 @@ class FnCompiler:
             t = f"{par(a.text)} &&& {par(b.text)}"
             return Val(t, "int", o.bound())
         self.byte_of(a), self.byte_of(b)
+        if op in ("|", "&") and re.fullmatch(r"\d+", a.text) and not re.fullmatch(r"\d+", b.text):
+            a, b = b, a                                       # `literal | x` is printed as `x | literal` (| and & commute)
+        if op in (">>", "<<") and b.text == "0":
+            return a if a.ty in ("u32", "u64") else self.convert(a, "int")      # shift by 0 (a helper called with shift 0)
         ty = self.arith_type(a.ty, b.ty)
         ua, ub = a.bound(), b.bound()
         A, B = par(a.text), par(b.text)
@@ -1284,6 +1371,22 @@ class FnCompiler:
     def call(self, e, env, k):
         _, fname, args = e
         sig = self.unit.sigs.get((fname, len(args)))
+        if sig is None and fname in self.unit.helpers and len(self.unit.helpers[fname][0]) == len(args):
+            # a pure one-line helper `static T f(params) {return EXPR;}`: inlined (parameters bound to the argument values)
+            hparams, hret, hexpr = self.unit.helpers[fname]
+            henv = {"#blocks": {}}
+
+            def bind(j, env):
+                if j == len(args):
+                    return self.rvalue(hexpr, henv, lambda v, _e: k(v if isinstance(v, tuple) else self.convert(v, hret), env))
+
+                def got(v, env):
+                    if isinstance(v, tuple) or isinstance(v.ty, tuple) or hparams[j][0] not in WIDTH:
+                        self.err(f"helper {fname}: only scalar parameters are inlined")
+                    henv[hparams[j][1]] = v if (hparams[j][0] == "s8" and v.ty in ("s8", "u8")) else self.convert(v, hparams[j][0])
+                    return bind(j + 1, env)
+                return self.rvalue(args[j], env, got)
+            return bind(0, env)
         if sig is None:
             self.err(f"call of {fname}/{len(args)}: no translated function of that name and arity")
         lean, params, ret = sig
@@ -1442,6 +1545,8 @@ class FnCompiler:
             K2["next"] = leave
             return self.seq(st[1], env, K2)
         if kind == "expr":
+            if st[1][0] == "call" and st[1][1] == "ASSERT":
+                return K["next"](env)                          # ASSERT(..): no effect in a release build, aborts in a debug build
             return self.rvalue(st[1], env, lambda v, env: K["next"](env))
         if kind == "return":
             if st[1] is None:
@@ -1489,8 +1594,8 @@ class FnCompiler:
                 if size < len(nums):
                     self.err(f"table {name}: more initialisers than elements")
                 nums += [0] * (size - len(nums))
-            lname = f"{self.name}_{name}"
-            self.tables.append(f"def {lname} : List Nat :=\n  {nums}\n")
+            lname = f"{self.name}_tab{len(self.tables) + 1}"
+            self.tables.append(f"-- table `{name}`\ndef {lname} : List Nat :=\n  {nums}\n")
             env2 = dict(env)
             env2[name] = ("table", lname, ty)
             return go(env2)
@@ -1510,8 +1615,8 @@ class FnCompiler:
                 self.err(f"uninitialised pointer {name}")
             return go({**env, name: Val("0", ty, 0)})           # read-before-write of an uninitialised scalar cannot be seen: 0
         if isinstance(ty, tuple) and ty[0] == "ptr" and init[0] == "strlit":
-            lname = f"{self.name}_{name}"
-            self.tables.append(f"def {lname} : List Nat := {[ord(c) for c in init[1]]}  -- \"{init[1]}\"\n")
+            lname = f"{self.name}_tab{len(self.tables) + 1}"
+            self.tables.append(f"-- table `{name}`\ndef {lname} : List Nat := {[ord(c) for c in init[1]]}  -- \"{init[1]}\"\n")
             return go({**env, name: ("table", lname, "u8" if ty[1] == "s8" else ty[1])})
 
         def got(v, env):
@@ -1725,6 +1830,30 @@ class BodyUnit:
 
     def __init__(self):
         self.sigs, self.needs_fuel, self.out = {}, {}, []
+        self.helpers = {}          # name -> ([(type, name)], return type, parsed EXPR) of pure one-line helpers
+
+    def add_helpers(self, src, exclude):
+        for m in re.finditer(r"static\s+(?P<ret>[\w\s]+?)\b(?P<name>\w+)\s*\((?P<params>[^()]*)\)\s*\{\s*return\s+(?P<e>[^;{}]*);\s*\}", strip_comments(src)):
+            name = m.group("name")
+            if name in exclude:
+                continue
+            try:
+                rp = CParser(ctokens(m.group("ret"), name), name)
+                ret = rp.base_type()
+                pp = CParser(ctokens(m.group("params"), name), name)
+                params = []
+                while pp.peek() is not None:
+                    ty = pp.declarator_type(pp.base_type())
+                    params.append((ty, pp.eat()))
+                    if pp.peek() == ",":
+                        pp.eat()
+                ep = CParser(ctokens(m.group("e"), name), name)
+                e = ep.expr()
+                if ep.peek() is not None or ret not in WIDTH:
+                    continue
+            except TranslateError:
+                continue                   # not a helper of the subset: a call of it will be refused
+            self.helpers[name] = (params, ret, e)
 
     def lean_ident(self, n):
         return n + "_" if n in self.RESERVED else n
@@ -1744,7 +1873,7 @@ def generate_body(repo):
     usrc = (Path(repo) / "include" / "nstd" / "Unicode.hpp").read_text(errors="replace")
     ssrc = (Path(repo) / "src" / "String.cpp").read_text(errors="replace")
     u = BodyUnit()
-    P = r"\s*\((?P<params>[^)]*)\)\s*\{"
+    u.add_helpers(usrc, exclude=("append", "toString", "length", "fromString", "isValid"))
     u.add(usrc, r"static\s+bool\s+append\s*\((?P<params>\s*uint32\s+\w+\s*,\s*String\s*&\s*\w+\s*)\)\s*\{", "append", "append", "bool",
           "Unicode::append(uint32, String&), UTF-8 branch (#else of #ifdef _UNICODE)")
     u.add(usrc, r"static\s+bool\s+append\s*\((?P<params>\s*uint32\s+\w+\s*,\s*String\s*&\s*\w+\s*)\)\s*\{", "append#utf16", "append_utf16", "bool",
@@ -1808,46 +1937,65 @@ def generate_num(repo):
     src = strip_comments((Path(repo) / "src" / "String.cpp").read_text(errors="replace"))
     out = ["/- GENERATED by tools/gen_codec.py (numeric wrappers) from the current src/String.cpp -- do not edit. -/\n",
            "import Nstd.Codec.Model\nnamespace Nstd.Generated.CodecNum\nopen Nstd.Codec\n\n"]
+    CASTS = {"int": r"int", "uint": r"uint|unsigned(?:\s+int)?", "int64": r"int64|long\s+long|long", "uint64": r"uint64|unsigned\s+long\s+long|unsigned\s+long",
+             "double": r"double"}
+
+    def parser_call(name, rty, static):
+        """(matched source text, libc function, has (.., 0, 10) arguments, base) of one parser; a member may forward to the static overload
+        (one level); `ASSERT(..);` is skipped, `const T v = CALL; return (R)v;` is read as `return (R)CALL;`, a cast to the declared
+        return type in front of the call is the conversion the translation applies anyway"""
+        what = f"String::{name}({'const char*' if static else ''})"
+        hdr = rty + r"\s+String::" + name + (r"\s*\(\s*const\s+char\s*\*\s*(?P<a>\w+)\s*\)\s*\{" if static else r"\s*\(\s*\)\s*const\s*\{")
+        ms = list(re.finditer(hdr, src))
+        if len(ms) != 1:
+            raise TranslateError(f"{what}: {len(ms)} definitions found, expected exactly one")
+        arg = re.escape(ms[0].group("a")) if static else r"(?:\(\s*const\s+char\s*\*\s*\)\s*)?\*\s*this"
+        body = function_body(src, hdr, what)
+        text = re.sub(r"\s+", " ", body).strip()
+        norm = re.sub(r"\bASSERT\s*\((?:[^()]|\([^()]*\))*\)\s*;", "", text).strip()
+        m = re.fullmatch(r"const\s+[\w\s]+?\b(\w+)\s*=\s*([^;]+);\s*return\s*(\(\s*[\w\s]+\))?\s*\1\s*;", norm)
+        if m:
+            norm = f"return {m.group(3) or ''}{m.group(2)};"
+        cast = r"(?:\(\s*(?:" + CASTS[rty] + r")\s*\)\s*)?"
+        if not static:
+            fw = re.fullmatch(r"return\s+" + cast + name + r"\s*\(\s*" + arg + r"\s*\)\s*;", norm)
+            if fw:
+                t2, fn, rest, base = parser_call(name, rty, True)
+                return f"{rty} String::{name}() const {{{text}}} -> {t2}", fn, rest, base
+        m = re.fullmatch(r"return\s+" + cast + r"(?P<fn>\w+)\s*\(\s*" + arg + r"\s*(?P<rest>,\s*(?:0|NULL|nullptr)\s*(?:,\s*(?P<base>\d+)\s*)?)?\)\s*;", norm)
+        if not m:
+            raise TranslateError(f"{what}: body {text!r} is not of the form `[ASSERT(..);] return <libc function>(<text>[, 0, 10]);`")
+        return f"{rty} String::{name}({'const char* ' + ms[0].group('a') if static else ''}) {{{text}}}", m.group("fn"), bool(m.group("rest")), m.group("base")
+
     for static in (False, True):
         for name, rty in (("toInt", "int"), ("toUInt", "uint"), ("toInt64", "int64"), ("toUInt64", "uint64"), ("toDouble", "double")):
-            if static:
-                rx = (rty + r"\s+String::" + name + r"\s*\(\s*const\s+char\s*\*\s*(?P<a>\w+)\s*\)\s*\{\s*return\s+(?P<fn>\w+)\s*\(\s*(?P=a)\s*"
-                      r"(?P<rest>,\s*(?:0|NULL|nullptr)\s*,\s*(?P<base>\d+)\s*)?\)\s*;\s*\}")
-            else:
-                rx = (rty + r"\s+String::" + name + r"\s*\(\s*\)\s*const\s*\{\s*return\s+(?P<fn>\w+)\s*\(\s*\*\s*this\s*"
-                      r"(?P<rest>,\s*(?:0|NULL|nullptr)\s*,\s*(?P<base>\d+)\s*)?\)\s*;\s*\}")
-            ms = list(re.finditer(rx, src))
             what = f"String::{name}({'const char*' if static else ''})"
-            if len(ms) != 1:
-                raise TranslateError(f"{what}: expected exactly one definition of the form `{{return <libc function>(<text>[, 0, 10]);}}`, found {len(ms)}")
-            m = ms[0]
-            fn, lname = m.group("fn"), name + ("S" if static else "")
-            doc = "/-- `" + re.sub(r"\s+", " ", m.group(0)) + "` -/\n"
+            stext, fn, rest, base = parser_call(name, rty, static)
+            lname = name + ("S" if static else "")
+            doc = "/-- `" + stext.replace("-/", "- /") + "` -/\n"
             if rty == "double":
-                if fn == "atof" and not m.group("rest"):
-                    pass
-                elif fn == "strtod" and m.group("rest") and m.group("base") is None:
-                    pass
-                else:
+                if not ((fn == "atof" and not rest) or (fn == "strtod" and rest and base is None)):
                     raise TranslateError(f"{what}: call of {fn} is not translated")
                 out.append(doc + f"def {lname} (strtod : List Nat → Dbl) (s : List Nat) : Dbl := strtod (cstr s)\n")
                 continue
             if fn not in LIBC_PARSE:
                 raise TranslateError(f"{what}: call of {fn} is not translated")
             lean_fn, fty, takes_base = LIBC_PARSE[fn]
-            if takes_base != bool(m.group("rest")) or (takes_base and m.group("base") != "10"):
+            if takes_base != rest or (takes_base and base != "10"):
                 raise TranslateError(f"{what}: arguments of {fn} must be (text{', 0, 10' if takes_base else ''})")
             dst = CRET[rty]
             out.append(doc + f"def {lname} (s : List Nat) : {'Int' if dst[0] == 's' else 'Nat'} := {num_convert(f'{lean_fn} (cstr s)', fty, dst)}\n")
     FMT = {("%d", "int"): ("fmtSigned v", "Int"), ("%u", "uint"): ("decDigits v", "Nat"), ("%lld", "int64"): ("fmtSigned v", "Int"),
            ("%llu", "uint64"): ("decDigits v", "Nat"), ("%f", "double"): ("fmtF v", "Dbl")}
     for name, cty in (("fromInt", "int"), ("fromUInt", "uint"), ("fromInt64", "int64"), ("fromUInt64", "uint64"), ("fromDouble", "double")):
-        rx = (r"String\s+String::" + name + r"\s*\(\s*" + cty + r"\s+(?P<v>\w+)\s*\)\s*\{\s*String\s+(?P<r>\w+)\s*;\s*(?P=r)\s*\.\s*printf\s*\(\s*"
-              r"\"(?P<fmt>%\w+)\"\s*,\s*(?P=v)\s*\)\s*;\s*return\s+(?P=r)\s*;\s*\}")
+        vcast = r"(?:\(\s*(?:" + CASTS[cty] + r")\s*\)\s*)?"
+        call = r"(?P=r)\s*\.\s*printf\s*\(\s*\"(?P<fmt>%\w+)\"\s*,\s*" + vcast + r"(?P=v)\s*\)"
+        rx = (r"String\s+String::" + name + r"\s*\(\s*" + cty + r"\s+(?P<v>\w+)\s*\)\s*\{\s*String\s+(?P<r>\w+)\s*;\s*"
+              r"(?:" + call + r"|VERIFY\s*\(\s*" + call.replace("<fmt>", "<fmt2>") + r"\s*>=?\s*0\s*\))\s*;\s*return\s+(?P=r)\s*;\s*\}")
         ms = list(re.finditer(rx, src))
         if len(ms) != 1:
             raise TranslateError(f"String::{name}({cty}): expected `{{String r; r.printf(\"<conversion>\", value); return r;}}`, found {len(ms)} such definitions")
-        key = (ms[0].group("fmt"), cty)
+        key = (ms[0].group("fmt") or ms[0].group("fmt2"), cty)
         if key not in FMT:
             raise TranslateError(f"String::{name}: conversion {key[0]} for a value of type {cty} is not translated")
         text, lty = FMT[key]
@@ -1872,6 +2020,7 @@ def generate_num(repo):
 
 
 def generate(repo):
+    _PROBE_CACHE.clear()
     out = ["/- GENERATED by tools/gen_codec.py from the current sources of the repo -- do not edit. -/\n",
            "import Nstd.Codec.Mem\nnamespace Nstd.Generated.Codec\nopen Nstd.Codec\n\n"]
     translate_string(repo, out)
